@@ -18,7 +18,7 @@ func init() {
 			"(1) prefix bytes untouched and the source's observation unchanged by Encode; (2) decoded mapping Equals the source's and the decoded observation is bitwise the source's (bin-for-bin through the fold model when the target is bounded); arbitrary float weights: per bin |decoded-v| <= ulp(v+1); (3) X.DecodeAndMergeWith(Encode(Y)) is identical to X.MergeWith(Y); (4) decoding Encode(A)||Encode(B)||... equals merging A, B, ...; (5) the independent parser recovers the model content. " +
 			"Non-trivial = encoding with >=2 store blocks or a layout other than contiguous counts; distinct = hash of the histories.",
 		Cases:     core.Scale(40000, 1000000),
-		Mandatory: []string{"oracle.roundtrip_equalities", "oracle.append_only_checks", "oracle.source_unchanged", "oracle.decode_merge_equivalence", "oracle.concatenation_checks", "oracle.independent_parse", "oracle.lossy_weight_checks", "layout.positive.index_deltas", "layout.positive.index_deltas_and_counts", "layout.positive.contiguous_counts", "decode.omitted_mapping", "decode.into_bounded_target"},
+		Mandatory: []string{"oracle.roundtrip_equalities", "oracle.append_only_checks", "oracle.source_unchanged", "oracle.decode_merge_equivalence", "oracle.concatenation_checks", "oracle.independent_parse", "oracle.lossy_weight_checks", "layout.positive.index_deltas", "layout.positive.index_deltas_and_counts", "layout.positive.contiguous_counts", "decode.omitted_mapping", "decode.into_bounded_target", "wide.bins_more_than_2^31_apart"},
 		Assumptions: []string{
 			"dyadic weights under the exactness budget survive the (v+1)-1 transform exactly",
 		},
@@ -43,7 +43,99 @@ func randExactFlag(r *rng.Rng) bool { return r.P(0.35) }
 
 // ---------- C06 ----------
 
+// runC06Wide: a very fine mapping (alpha 1e-7..1e-8, whose index range is clamped to int32) holding values
+// near both ends of the indexable range in a sparse store: consecutive encoded bins are more than 2^31 apart.
+func runC06Wide(c *core.Ctx) {
+	r := c.R
+	alpha := []float64{1e-7, 3e-8, 1e-8}[r.Intn(3)]
+	m, err := gen.NewMap(r.Intn(3), alpha)
+	if err != nil {
+		c.Failf("constructor", "mapping constructor(%v): %v", alpha, err)
+		return
+	}
+	exact := r.P(0.3)
+	src := gen.StoreSpec{Kind: gen.SSparse}
+	s := mon.NewSketch(exact, m.M, src)
+	md := mon.NewSketchModel(m, src)
+	n := r.Range(2, 8)
+	for i := 0; i < n; i++ {
+		var v float64
+		switch i % 3 {
+		case 0:
+			v = m.Min * (1 + r.Float()*10)
+		case 1:
+			v = m.Max / (1 + r.Float()*10)
+		default:
+			v = r.LogUniform(1e-3, 1e3)
+		}
+		if r.P(0.3) {
+			v = -v
+		}
+		w := float64(r.Range(1, 5))
+		c.SigF(v)
+		if err := s.I().AddWithCount(v, w); err != nil {
+			c.Failf("AddWithCount.rejected", "AddWithCount(%v,%v): %v (min %v max %v)", v, w, err, m.Min, m.Max)
+			return
+		}
+		md.Add(v, w)
+	}
+	span := md.Pos.Span()
+	if sp := md.Neg.Span(); sp > span {
+		span = sp
+	}
+	if span > math.MaxInt32 {
+		c.Count("wide.bins_more_than_2^31_apart", 1)
+	}
+	var e []byte
+	if c.Guard("Encode", func() { s.I().Encode(&e, false) }) {
+		return
+	}
+	c.Logf("wide: %s, %d values, index span %d, %d bytes", m.Desc, n, span, len(e))
+	for _, target := range []gen.StoreSpec{{Kind: gen.SSparse}, {Kind: gen.SCLow, N: gen.RandN(r)}, {Kind: gen.SCHigh, N: gen.RandN(r)}} {
+		var d mon.Sketch
+		var derr error
+		if c.Guard("Decode", func() { d, derr = mon.Decode(exact, e, target, nil) }) {
+			return
+		}
+		c.Count("oracle.roundtrip_equalities", 1)
+		if derr != nil {
+			c.Failf("decode.error", "decoding a valid encoding (bins %d indexes apart, %s) into %s returned %v", span, m.Desc, target, derr)
+			return
+		}
+		tm := mon.NewSketchModel(m, target)
+		tm.Merge(md)
+		mon.CheckSketchBins(c, "wide:"+target.KindName(), d, tm)
+		if c.Failed() {
+			return
+		}
+	}
+	// decode-merge into a non-empty sparse sketch == merge
+	x1, x2 := mon.NewSketch(exact, m.M, src), mon.NewSketch(exact, m.M, src)
+	for _, x := range []mon.Sketch{x1, x2} {
+		x.I().Add(1.5)
+	}
+	var e1, e2 error
+	c.Guard("DecodeAndMergeWith", func() { e1 = x1.I().DecodeAndMergeWith(e) })
+	c.Guard("MergeWith", func() { e2 = x2.MergeWith(s) })
+	if e1 != nil || e2 != nil {
+		c.Failf("decode_merge.error", "DecodeAndMergeWith / MergeWith returned %v / %v", e1, e2)
+		return
+	}
+	o1, o2 := mon.Observe(x1, nil), mon.Observe(x2, nil)
+	o1.HasSum, o2.HasSum = false, false
+	if dd := o2.Diff(o1); dd != "" {
+		c.Failf("decode_merge.differs", "X.DecodeAndMergeWith(Encode(Y)) differs from X.MergeWith(Y) (merged vs decoded): %s", dd)
+	}
+	if span > math.MaxInt32 {
+		c.NonTrivial()
+	}
+}
+
 func runC06(c *core.Ctx) {
+	if c.Index%40 == 39 {
+		runC06Wide(c)
+		return
+	}
 	r := c.R
 	m := gen.RandMap(r, true)
 	specA := gen.StoreSpec{Kind: c.Index % 5}
